@@ -67,7 +67,7 @@ def starve_cases(seed):
 THREADS_RULE = ("; plus the ENUMERATED family 'threads' on the multi-thread scheduler harness (harness/mt_h.c): a self-re-registering task, a ring "
                 "of two tasks and two threads that both run self-re-registering tasks, while ANOTHER thread's loop goes round during the "
                 "handler (woken by an event the handler posts, or busy with tasks of its own), under seed-chosen and systematically enumerated "
-                "schedules: rounds are per loop - no task handler may run twice in one thread without that thread's kernel poll in between")
+                "schedules: rounds are per loop - no task handler may run twice in one thread without that thread's kernel poll in between, every task runs in the thread that registered it, and none is left behind")
 MT_H = os.path.join(common.BUILD, "mt_c06")
 
 
@@ -98,13 +98,32 @@ def threads_oracle(log):
     """C06 on the multi-thread harness' log: per thread, the same task's handler twice with no kernel poll of that thread (and no return
     from iv_main) in between = a re-registration made inside the round was not deferred"""
     ran = {}
+    pend = {}       # task -> (thread that registered it, line)
+    cur_api = {}
+    ended = None
     for n, l in enumerate(log.splitlines(), 1):
         w = l.split()
         if len(w) < 2:
             continue
         t = w[0]
+        if w[1] in ("FIN", "QUIESCENT", "WAITLIMIT", "CBLIMIT", "STEPLIMIT"):
+            ended = w[1]
+        if w[1] == "API" and len(w) > 3 and w[2] == "taskRegister":
+            pend[w[3]] = (t, n)
+        elif w[1] == "API" and len(w) > 3 and w[2] == "taskUnregister":
+            pend.pop(w[3], None)
+        if w[1] == "CB" and len(w) > 2 and w[2].startswith("k"):
+            own = next((x[6:] for x in w if x.startswith("owner=")), t)
+            if own != t:
+                return (f"line {n}: handler of task {w[2]} (registered by {own}) runs in {t}: a task's handler is invoked in the registering thread")
+            pend.pop(w[2], None)
         if w[1] in ("WAIT", "MAINRET"):
             ran[t] = {}
+            if w[1] == "MAINRET":
+                lost = sorted(k for k, (tt, _) in pend.items() if tt == t)
+                if lost:
+                    return (f"line {n}: iv_main of {t} returns while task {lost[0]} (registered at line {pend[lost[0]][1]}) is still registered and "
+                            f"has not been run: a registered task's handler is invoked exactly once per registration")
         elif w[1] == "CB" and len(w) > 2 and w[2].startswith("k"):
             if w[2] in ran.setdefault(t, {}):
                 return (f"line {n}: handler of task {w[2]} runs again in {t} (previous run at line {ran[t][w[2]]}) although {t}'s loop has not been "
@@ -112,6 +131,10 @@ def threads_oracle(log):
             ran[t][w[2]] = n
         elif w[1] == "FATAL":
             return f"line {n}: the library called iv_fatal: {' '.join(w[2:])[:120]}"
+    if ended in ("FIN", "QUIESCENT") and pend:
+        k = sorted(pend)[0]
+        return (f"run ended ({ended}) with task {k} registered by {pend[k][0]} at line {pend[k][1]} never run: a registered task's handler is "
+                f"invoked exactly once per registration, before the loop next blocks")
     return None
 
 
@@ -150,8 +173,9 @@ def threads_part(tier, seed, res):
             res.evaluations += 1
             if m:
                 # shrink only on the same verdict (a degenerate scenario that upsets the harness is not a smaller witness)
-                same = lambda ls: "HARNESS-ERROR" not in run_mt(ls)[0] and "runs again" in (threads_oracle(run_mt(ls)[0]) or "")
-                small = common.shrink(lines, same, keep_head=1) if "runs again" in m else lines
+                kind = next((k for k in ("runs again", "registering thread", "exactly once per registration") if k in m), None)
+                same = lambda ls: "HARNESS-ERROR" not in run_mt(ls)[0] and kind in (threads_oracle(run_mt(ls)[0]) or "")
+                small = common.shrink(lines, same, keep_head=1) if kind else lines
                 m2 = mt_fails(small) or m
                 pth = common.write_case(PROP, name, ["# threads case (multi-thread harness)"] + small, tier, seed, ext="scn")
                 res.impl_violations.append(("task:threads:ran-twice-in-round", "implementation violates C06: " + m2, pth))
@@ -173,7 +197,7 @@ def replay_threads(path):
 
 def run(tier, seed, proof):
     res = l1.run_property(PROP, tier, seed, proof, FAMILIES, MONS, [], nontrivial, RULE + STARVE_RULE + LIST_RULE + loopgen.ENUM_RULE + THREADS_RULE,
-                          extra_cases=lambda tier, seed: starve_cases(seed) + loopgen.quit_cases() +
+                          extra_cases=lambda tier, seed: starve_cases(seed) + loopgen.quit_cases() + loopgen.chain_cases() +
                           [c for c in loopgen.ktimer_cases(seed) if "kreg" in " ".join(c[1])])
     # the intrusive list the task queue (and every other queue of the library) is built from: pointer-level model, differential run
     if proof["driver_ok"]:
